@@ -5,7 +5,7 @@
    Events (p, s, c are harness-chosen names of calls / subscriptions / closers):
      reset      persistent blocking
      pubstart   p m topic payload meta after  pubend   p ok     (after: previous message's call in a multi-message Publish)
-     substart   s topic neverack              subend   s ok
+     substart   s topic neverack              subend   s ok chclosed
      recv       s m payload meta fresh ctxlive derived
      ack s m | nack s m                       (logged before the consumer settles)
      cancel s                                 (logged before the context is cancelled)
@@ -35,7 +35,8 @@ TSubStart == /\ Is("substart")
              /\ IF cfg.persistent /\ closed # "closed"
                   THEN SubscribeStartLin(Ev.s, Ev.topic, Ev.neverack) /\ Adv
                   ELSE SubscribeStart(Ev.s, Ev.topic, Ev.neverack) /\ Adv
-TSubEnd   == Is("subend") /\ (IF Ev.ok THEN SubscribeEndOk(Ev.s) ELSE SubscribeEndErr(Ev.s)) /\ Adv
+\* chclosed: a Subscribe call that returns a channel once Close has returned (Close waited for it) returns a closed one
+TSubEnd   == Is("subend") /\ (IF Ev.ok THEN SubscribeEndOk(Ev.s) /\ Ev.chclosed # "no" ELSE SubscribeEndErr(Ev.s)) /\ Adv
 TRecv     == /\ Is("recv") /\ Recv(Ev.s, Ev.m)
              /\ Ev.payload = msgs[Ev.m].payload /\ Ev.meta = msgs[Ev.m].meta     \* identical content
              /\ Ev.fresh /\ Ev.derived /\ (Ev.ctxlive \/ Dying(Ev.s))                  \* separate copy; context derived from Subscribe's, live unless the subscription is being torn down
